@@ -124,6 +124,15 @@ Theorem C17_repo_single_writer : single_writer_once_guarded = true.
 Proof. exact repo_single_writer. Qed.
 Print Assumptions C17_repo_single_writer.
 
+(* Isolation on the receiving side.  In the model every connection is served by handle_conn, a function of that connection's
+   own bytes (C16_channel, C17_reader_total): a connection that stalls -- sends nothing, or stops in the middle of the TLS
+   handshake, the handshake message or a frame -- is a connection whose reader gets no further input, and no step of another
+   connection depends on it.  /repo matches this because the accept loop only hands an accepted connection to a goroutine of
+   its own and never waits for a client (syntactic; the "stalled clients" scenario of the harness attacks it dynamically). *)
+Theorem C17_repo_accept_hands_off : accept_loop_hands_off = true.
+Proof. exact repo_accept_hands_off. Qed.
+Print Assumptions C17_repo_accept_hands_off.
+
 (* The pinned upstream code panicked in the caller of Send when a queue stayed full for the timeout (fix: 3527aa1). *)
 Theorem C17_no_panic_tree_refuted :
   snd (run (cfg_ex false) q_init [QEnq 1 10; QEnq 1 11; QEnq 1 12]) = [Ok RAccepted; Ok RAccepted; Panic] /\
